@@ -103,12 +103,14 @@ def generate_checked(api, options, d, rec, pid):
     return res, req
 
 
-def run_exerciser(pid, api, options, inner, res, req, d, rec):
+def run_exerciser(pid, api, options, inner, res, req, d, rec, beside=()):
     out = os.path.join(d, "out")
     os.makedirs(out)
+    for other in beside:          # libraries the emitted one depends on (installed first; the target's files win)
+        driver.materialise(other, out)
     driver.materialise(res.response, out)
     r = driver.exercise(pid, d, out, req, api, options, inner)
-    if r.get("harness_error"):
+    if r.get("harness_error") and not r.get("violations"):
         raise HarnessError(f"exerciser: {r['harness_error'][-3000:]}")
     for k, v in r.get("classes", {}).items():
         rec.cls(k, v)
